@@ -77,6 +77,21 @@ Proof.
   destruct (N.eqb_spec x p) as [->|Hne]; [tauto|]. apply HU; tauto.
 Qed.
 
+(* the same for a write inside a rollback-journal transaction, whatever journal mode LiteFS tracks *)
+Lemma write_page_j_unchanged s0 s p q s' :
+  contiguous s p -> Unchanged s0 s -> op_write_page_j s p q = (Done, s') ->
+  Unchanged s0 s' /\ wal_mode s' = wal_mode s /\ dirty s' = insert_sorted p (dirty s) /\
+  txid s' = txid s /\ chk s' = chk s /\ ltxdir s' = ltxdir s /\ lockpg s' = lockpg s.
+Proof.
+  intros Hc HU H. unfold op_write_page_j in H. destruct (writeable s); cbn [negb] in H; [|discriminate].
+  inversion H; subst s'. clear H.
+  split; [|repeat split; reflexivity].
+  intros x Hx Hnd. change (dirty (write_db_page (with_dirty s (insert_sorted p (dirty s))) p q)) with (insert_sorted p (dirty s)) in Hnd.
+  rewrite insert_sorted_in in Hnd.
+  rewrite write_page_file by assumption.
+  destruct (N.eqb_spec x p) as [->|Hne]; [tauto|]. apply HU; tauto.
+Qed.
+
 (* ---------- CommitJournal ---------- *)
 Lemma journal_pages_spec s commit : forall pgnos pages,
   journal_pages s commit pgnos = Some pages ->
@@ -228,15 +243,15 @@ Lemma commit_wal_file s frames commit s' :
   op_commit_wal s frames commit = (Done, s') ->
   exists f, ltxdir s' = ltxdir s ++ [f] /\
     l_min f = txid s + 1 /\ l_max f = txid s + 1 /\ l_pre f = chk s /\ l_post f = chk s' /\ l_commit f = commit /\
-    l_pages f = tx_pages s frames /\ txid s' = txid s + 1 /\ pageN s' = commit /\ dbfile s' = dbfile s.
+    l_pages f = tx_pages s frames commit /\ txid s' = txid s + 1 /\ pageN s' = commit /\ dbfile s' = dbfile s.
 Proof.
-  intros H. unfold op_commit_wal in H. fold (tx_pages s frames) in H. fold (tx_new s frames) in H.
-  destruct (truncated_pages s (commit + 1) (N.to_nat (pageN s)) (tx_new s frames)) as [new|]; [|discriminate].
+  intros H. unfold op_commit_wal in H. fold (tx_pages s frames commit) in H. fold (tx_new s frames commit) in H.
+  destruct (truncated_pages s (commit + 1) (N.to_nat (pageN s)) (tx_new s frames commit)) as [new|]; [|discriminate].
   pose proof (checksum_same s commit new) as HS.
   destruct (checksum s commit new) as [[post|] s1]; [|discriminate]. cbn [snd] in HS.
   destruct (writeable s1); cbn [negb] in H; [|discriminate]. inversion H; subst s'. clear H.
   destruct HS as [_ [_ [Ef [_ [_ [_ [_ [_ [_ [_ [_ [_ Ed]]]]]]]]]]]].
-  exists (new_ltx s commit post (tx_pages s frames)). cbn. repeat split; try reflexivity; congruence.
+  exists (new_ltx s commit post (tx_pages s frames commit)). cbn. repeat split; try reflexivity; congruence.
 Qed.
 
 (* membership in the sorted, lock-free page list = last version of that page among the frames *)
@@ -286,7 +301,7 @@ Theorem wal_commit_exact s frames commit s' :
   exists f, ltxdir s' = ltxdir s ++ [f] /\
     l_min f = txid s + 1 /\ l_max f = txid s + 1 /\ l_pre f = chk s /\ l_post f = chk s' /\ l_commit f = commit /\
     txid s' = txid s + 1 /\ pageN s' = commit /\ dbfile s' = dbfile s /\
-    (forall p q, In (p, q) (l_pages f) <-> (p <> lockpg s /\ last_frame p frames = Some q)).
+    (forall p q, In (p, q) (l_pages f) <-> (p <> lockpg s /\ p <= commit /\ last_frame p frames = Some q)).
 Proof.
   intros H. destruct (commit_wal_file s frames commit s' H) as [f [E1 [E2 [E3 [E4 [E5 [E6 [E7 [E8 [E9 E10]]]]]]]]]].
   exists f. repeat (split; [assumption|]).
@@ -294,8 +309,9 @@ Proof.
   assert (KeysNoDup (last_versions frames ([] : list (N * pg)))) as Hk by (apply last_versions_keys; constructor).
   pose proof (alookup_last_versions p frames []) as Hl. fold (last_frame p frames) in Hl. cbn [alookup] in Hl.
   split.
-  - intros [[Hin|[]] Hnl]. apply negb_true_iff, N.eqb_neq in Hnl. split; [assumption|].
+  - intros [[Hin|[]] Hnl]. apply andb_true_iff in Hnl. destruct Hnl as [Hnl Hle].
+    apply negb_true_iff, N.eqb_neq in Hnl. apply N.leb_le in Hle. split; [assumption|]. split; [assumption|].
     apply (in_alookup_nodup p q _ Hk) in Hin. rewrite Hl in Hin. destruct (last_frame p frames); congruence.
-  - intros [Hnl Hlf]. split; [left|apply negb_true_iff, N.eqb_neq; assumption].
+  - intros [Hnl [Hle Hlf]]. split; [left|apply andb_true_iff; split; [apply negb_true_iff, N.eqb_neq; assumption|apply N.leb_le; assumption]].
     apply alookup_in. rewrite Hl, Hlf. reflexivity.
 Qed.
